@@ -151,17 +151,17 @@ CLAUSES = (
     rf"{SPACE}"
     rf"|(?:REDEFINES){SPACE}(?P<redefines>{NAME})"
     rf"|(?:BLANK){SPACE}(WHEN{SPACE})?(?P<blank>ZERO|ZEROES|ZEROS)"
-    r"|EXTERNAL"
-    r"|GLOBAL"
+    r"|EXTERNAL(?![\w-])"
+    r"|GLOBAL(?![\w-])"
     rf"|(?:JUSTIFIED|JUST){SPACE}(?P<justified>RIGHT)?"
     rf"|(?:OCCURS){SPACE}(?:(?P<odo_minitems>\d+){SPACE}TO{SPACE})?(?P<odo_maxitems>\d+)(?:{SPACE}TIMES)?{SPACE}DEPENDING{SPACE}(?:ON{SPACE})?(?P<depending_on>{NAME})(?:{SPACE}{KEY})?"
     rf"|(?:OCCURS){SPACE}(?P<occurs_maxitems>\d+)(?:{SPACE}TIMES)?(?:{SPACE}{KEY})?"
     rf"|(?:PIC|PICTURE){SPACE}(?:IS{SPACE})?(?P<picture>\S+)"
     rf"|(?:SIGN{SPACE})?(?:IS{SPACE})?(?P<sign>LEADING|TRAILING)(?P<sign_sep>{SPACE}SEPARATE{SPACE}CHARACTER|{SPACE}SEPARATE)"
     rf"|(?:SYNCHRONIZED|SYNC)(?P<synch>{SPACE}LEFT|{SPACE}RIGHT)?"
-    rf"|(?:USAGE{SPACE})?(?:IS{SPACE})?(?P<usage>BINARY|COMPUTATIONAL-1|COMPUTATIONAL-2|COMPUTATIONAL-3|COMPUTATIONAL-4|COMPUTATIONAL|COMP-1|COMP-2|COMP-3|COMP-4|COMP|DISPLAY|PACKED-DECIMAL)(?!-)"
+    rf"|(?:USAGE{SPACE})?(?:IS{SPACE})?(?P<usage>BINARY|COMPUTATIONAL-1|COMPUTATIONAL-2|COMPUTATIONAL-3|COMPUTATIONAL-4|COMPUTATIONAL|COMP-1|COMP-2|COMP-3|COMP-4|COMP|DISPLAY|PACKED-DECIMAL)(?![\w-])"
     rf"|(?:VALUE{SPACE})(?:IS{SPACE})?(?P<value>'.*'|\".*\"|\S+)"
-    r"|(?P<filler>FILLER)"
+    r"|(?P<filler>FILLER)(?![\w-])"
     rf"|(?P<name>{NAME})"
 )
 
